@@ -431,6 +431,32 @@ fn decode_then<E: MkEngine, T>(
     }
 }
 
+/// An unrelated encoder and decoder (other shape, other loss pattern) doing a full round on this thread:
+/// independent objects must not influence the object under test (no hidden global / thread-local state).
+fn bystander<E: MkEngine>(seed: u64) {
+    let saved = reed_solomon_simd::verif::poison();
+    let (k, r, sb) = (5usize, 3usize, 66usize);
+    let orig: Vec<Vec<u8>> = (0..k).map(|i| util::payload(seed, 0xB75, i as u64, sb)).collect();
+    let Ok(mut e) = EncObj::<E>::new(Kind::Default, k, r, sb) else { return };
+    for o in &orig {
+        let _ = e.add(o);
+    }
+    let rec: Vec<Vec<u8>> = match e.encode() {
+        Ok(res) => res.recovery_iter().map(<[u8]>::to_vec).collect(),
+        Err(_) => return,
+    };
+    if let Ok(mut d) = DecObj::<E>::new(Kind::Default, k, r, sb) {
+        for i in [0usize, 3] {
+            let _ = d.add_original(i, &orig[i]);
+        }
+        for (j, s) in rec.iter().enumerate() {
+            let _ = d.add_recovery(j, s);
+        }
+        let _ = d.decode().map(|res| res.restored_original_iter().count());
+    }
+    reed_solomon_simd::verif::set_poison(saved);
+}
+
 /// Runs a script on a fresh encoder.  `first` describes the initial node (construction).
 pub fn run_enc<E: MkEngine>(x: &mut Exec, init: &Value, script: &[StepRef]) -> Result<(), Mismatch> {
     crate::ops::poison_on(x.seed ^ x.steps.wrapping_mul(0x9E37));
@@ -509,6 +535,9 @@ pub fn run_enc<E: MkEngine>(x: &mut Exec, init: &Value, script: &[StepRef]) -> R
                 let (k, r, sb) = (us(&node["k"]), us(&node["r"]), us(&node["sb"]));
                 let added: Vec<String> = node["added"].as_array().unwrap().iter().map(|p| p.as_str().unwrap().to_string()).collect();
                 let rate = node["rate"].as_str().unwrap().to_string();
+                if x.steps % 3 == 0 && !x.measure_alloc {
+                    bystander::<E>(x.seed ^ x.steps);
+                }
                 let mut li = i;
                 let (outcome, allocs) = encode_then(&mut obj, |result, allocs| -> Result<(), Mismatch> {
                     let mut i = li;
@@ -742,6 +771,9 @@ pub fn run_dec<E: MkEngine>(x: &mut Exec, init: &Value, script: &[StepRef]) -> R
                 let rate = node["rate"].as_str().unwrap().to_string();
                 let got_o = set_of(&node["gotO"]);
                 let (orig, _) = round_data(x, &rate, k, r, sb);
+                if x.steps % 3 == 0 && !x.measure_alloc {
+                    bystander::<E>(x.seed ^ x.steps);
+                }
                 let mut li = i;
                 let (outcome, allocs) = decode_then(&mut obj, |result, allocs| -> Result<(), Mismatch> {
                     let mut i = li;
